@@ -21,7 +21,7 @@ VARIABLES l, m, viol
 vars == <<l, m, viol>>
 
 M0 == [run |-> "", inb |-> << >>, cmds |-> << >>, di |-> 0, ob |-> << >>, unfl |-> 0, cbs |-> << >>, cur |-> 0,
-       long |-> << >>, fault |-> FALSE, badfrag |-> FALSE, done |-> FALSE,
+       long |-> << >>, fault |-> FALSE, badfrag |-> FALSE, done |-> FALSE, blocked |-> FALSE,
        n |-> [cmds |-> 0, cbs |-> 0, units |-> 0, rows |-> 0, pvs |-> 0, pkts |-> 0, rds |-> 0, bytes_in |-> 0, bytes_out |-> 0, big_msgs |-> 0]]
 Init == l = 1 /\ m = M0 /\ viol = {}
 
@@ -166,6 +166,12 @@ Step ==
                                        !.n.big_msgs = @ + Cardinality({i \in 1..Len(r.msgs) : r.msgs[i].n > 1})])
                /\ viol' = viol \cup (IF m.unfl # 0 THEN {V("C12", l, "server waits for input with unflushed output")} ELSE {})
        [] e.e \in {"rd_err", "wr_err", "fl_err"} -> m' = [m EXCEPT !.fault = TRUE] /\ UNCHANGED viol
+       [] e.e = "rd_block" ->
+            \* the lock-step client is waiting for an answer and the server asks for more input: it neither
+            \* answered the (complete) message it holds nor gave up
+            /\ m' = [m EXCEPT !.blocked = TRUE]
+            /\ viol' = viol \cup {V("C20", l, "the server neither answered nor gave up: it waits for input after a complete message"),
+                                   V("C12", l, "server waits for input while the client is waiting for a reply")}
        [] e.e = "cb" ->
             IF e.name = "auth" THEN m' = [m EXCEPT !.di = 1] /\ UNCHANGED viol
             ELSE LET mm == SkipTo(m)
@@ -212,9 +218,11 @@ Step ==
                         ELSE IF partial /\ ~mm.badfrag /\ ~mm.fault /\ e.result = "ok"
                              THEN {V("C19", l, "run_on returned Ok although the stream ended inside a multi-packet message (" \o ToString(RLen(mm.inb)) \o " bytes pending)")}
                         ELSE IF expectErr /\ e.result = "ok" THEN {V("C20", l, "out-of-order fragments accepted silently")}
-                        ELSE IF ~expectErr /\ e.result # "ok"
+                        ELSE IF ~expectErr /\ e.result # "ok" /\ ~mm.blocked
                              THEN {V("C19", l, "run_on returned an error on a fault-free conformant conversation"),
                                    V("C01", l, "a well-formed command stream was not delivered to the end: run_on gave up (" \o ToString(Len(mm.cmds) - mm.di) \o " commands never dispatched)")}
+                                  \cup (IF mm.di < Len(mm.cmds) /\ mm.cmds[mm.di + 1].n > 1 /\ mm.cmds[mm.di + 1].seqN < mm.cmds[mm.di + 1].seq0
+                                        THEN {V("C05", l, "a request whose fragment sequence ids wrap from 255 to 0 was not answered")} ELSE {})
                         ELSE {}
                 vout == IF expectErr \/ e.result # "ok" THEN {}
                         ELSE (IF r.rest # << >> THEN {V("C04", l, "output ends inside a packet or with an unterminated maximal packet")} ELSE {})
